@@ -416,7 +416,7 @@ func init() {
 		ProcsPerWorker:    8,
 		AddressSpaceLimit: 8 << 30,
 		Real:              []string{"github.com/openacid/low/{bitmap,bmtree,bitstr,bitword,sigbits}: the real source with a verifhook.Yield() call inserted before every statement by cmd/yieldinject (go/ast rewrite of a scratch copy; /repo untouched)"},
-		Stub:              append([]string{"read-only arena (mmap + mprotect) holding every shared input", "stack poisoner"}, commonStub...),
+		Stub:              append([]string{"read-only arena (mmap + mprotect) holding every shared input", "stack poisoner", "sync.Mutex/RWMutex/Once/WaitGroup of the code under test: cooperative stand-ins over the real primitives (package verifhook in the scratch copy)", "go statements of the code under test: tasks of the simulated scheduler"}, commonStub...),
 		Build:             "yield",
 	})
 }
